@@ -89,7 +89,7 @@ JudgeUpdate(e, P, O) ==
            valid == ValidEdit(ft.vo, e.mode, e.d, e.k)
        IN IF ~valid
           THEN \* outside the documented usage: only "AssertionError or a well-formed state" is required
-               (IF e.outcome = 0 THEN {"Conf_invalid_edit_" \o c : c \in {x \in {"wf"} : WfClauses(O) # {}}} ELSE {})
+               (IF e.outcome = 0 /\ WfClauses(O) # {} THEN {"Conf_invalid_edit_ill_formed"} ELSE {})
           ELSE IF e.outcome # 0 THEN {"C17_valid_edit_raised"}
           ELSE LET X  == UpdateVo(ft.vo, e.mode, e.d, e.k)
                    got == O.feats[e.f].vo
@@ -111,15 +111,29 @@ JudgeSummary(e, P) ==
                frows == {rows[i] : i \in {j \in DOMAIN rows : rows[j][1] = f}}
            IN  IF ft.kind = "quali"
                THEN \* (label, content) rows partition the known string values, label = transform's label
-                    Flag(\A l \in GLLeaders(ft.vo) :
-                            LET lab == OutOf(P.dtype, ft, l)
-                                strs == {v \in GLMembers(ft.vo, l) : v \in e.strvals[f]}
+                    Flag(\A ldr \in GLLeaders(ft.vo) :
+                            LET lab == OutOf(P.dtype, ft, ldr)
+                                strs == {v \in GLMembers(ft.vo, ldr) : v \in GLRng(e.strvals[f]) /\ v # DEFAULT}
                             IN  strs = {} \/ lab = NanOut \/
-                                \E r \in frows : r[2] = lab /\ GLRng(r[3]) = strs, "C16_summary_quali_rows")
-                    \cup Flag(\A r \in frows : \E l \in GLLeaders(ft.vo) : r[2] = OutOf(P.dtype, ft, l), "C16_summary_unknown_label")
-               ELSE \* one row per fitted group
-                    Flag(Cardinality({r[2] : r \in frows}) =
-                         Cardinality(LabelSet(P.dtype, ft) \ {NanOut}), "C16_summary_quanti_rows")
+                                \E r \in frows : r[2] = lab /\ GLRng(r[3]) \ {NAN} = strs, "C16_summary_quali_rows")
+                    \cup Flag((HasNan(ft.vo) /\ ft.dropna) =>
+                                 \E r \in frows : r[2] = OutOf(P.dtype, ft, NanGroup(ft.vo)) /\ NAN \in GLRng(r[3]),
+                              "C16_summary_missing_values")
+                    \cup Flag(\A r \in frows : \E ldr \in GLLeaders(ft.vo) : r[2] = OutOf(P.dtype, ft, ldr), "C16_summary_unknown_label")
+               ELSE \* one row per fitted group (a missing-value modality that is not dropped may be listed or not)
+                    LET L == {LabelOf(P.dtype, ft, ldr) : ldr \in GLLeaders(ft.vo)}
+                        R == {r[2] : r \in frows}
+                        optional == IF ~ft.dropna /\ HasNan(ft.vo) /\ NanGroup(ft.vo) = NAN
+                                    THEN {LabelOf(P.dtype, ft, NAN)} ELSE {}
+                    IN Flag(/\ \A x \in R : x[1] = 3 \/ x \in L
+                            /\ \A x \in L \ optional : x[1] = 3 \/ x \in R
+                            /\ Cardinality({x \in R : x[1] = 3}) = Cardinality({x \in L : x[1] = 3}),
+                            "C16_summary_quanti_rows")
+                    \* missing values are shown in the group they were merged into
+                    \cup Flag((HasNan(ft.vo) /\ ft.dropna) =>
+                                 LET lab == OutOf(P.dtype, ft, NanGroup(ft.vo)) IN
+                                 \E r \in frows : NAN \in GLRng(r[3]) /\ (IF lab[1] = 3 THEN r[2][1] = 3 ELSE r[2] = lab),
+                              "C16_summary_missing_values")
            : f \in want}
 
 (* a malformed call must be refused with AssertionError and leave the object unchanged (C19) *)
@@ -144,6 +158,7 @@ Judge(e, P, O) ==
     [] e.ev = "summary"   -> JudgeSummary(e, P)
     [] e.ev = "badcall"   -> JudgeBadCall(e, P, O)
     [] e.ev = "reload"    -> JudgeReload(e, objs[e.src], O)
+    [] e.ev = "noop"      -> {}
     [] OTHER -> {"Drv_unknown_event"}
 
 Step ==
